@@ -4,7 +4,7 @@
    skeletons (C18_skeleton) and by running the extracted models against the real
    SignalHandler / RefreshWorker under fake notifier, clock, schedule, context
    constructor, refresher and error handler. *)
-From Verif Require Import Base.GoPrim Base.Skel Gen.ConcSkel Model.Service Proofs.ServiceProofs.
+From Verif Require Import Base.GoPrim Base.Skel Gen.ConcSkel Model.ExpectedSkel Model.Service Proofs.ServiceProofs.
 
 Theorem C18_skeleton :
   conc_skel_ok = true /\
